@@ -251,6 +251,12 @@ func (n *node) readdir() ([]fuse.DirEntry, syscall.Errno) {
 
 	// Append whiteouts if no entry replaces the target entry in the lower layer.
 	for w, id := range whiteouts {
+		target := w[len(whiteoutPrefix):]
+		if target == "" || target == "." || target == ".." || strings.HasPrefix(target, whiteoutPrefix) ||
+			(isRoot && (target == estargz.PrefetchLandmark || target == estargz.NoPrefetchLandmark)) {
+			// Lookup never resolves these names so don't list them.
+			continue
+		}
 		if !normalEnts[w[len(whiteoutPrefix):]] {
 			ino, err := n.fs.inodeOfID(id)
 			if err != nil {
